@@ -9,8 +9,10 @@ Driver glue for C15.
       each phase = app events joined by `+` (or `-`), followed by fair rounds until quiescent;
       output: the schedule-independent summary (see `summary`)
 
-`<cfg>`  `h:<ops>` (protocol provides IHalfCloseableProtocol; `<ops>` = what readConnectionLost calls,
-         joined by `+`, `-` for nothing) or `p:-` (plain protocol)
+`<cfg>`  `h:<ops>:<triggers>:<ops>` (protocol provides IHalfCloseableProtocol; 1st `<ops>` = what readConnectionLost
+         calls, joined by `+`, `-` for nothing; `<triggers>` = what dataReceived calls: `<threshold>=<ops>` joined by
+         `/`, `-` for none; 2nd `<ops>` = what writeConnectionLost calls) or `p:-:<triggers>:-` (plain protocol);
+         the short forms `h:<ops>` and `p:-` mean no dataReceived / writeConnectionLost reaction
 `<op>`   `w<hex>` write (`w-` = empty) · `q<hex>,<hex>…` writeSequence (`q` = empty list, `-` = empty chunk)
          · `g<seed>.<len>` write of the pattern (seed+i) mod 251 · `L` loseConnection · `H` loseWriteConnection
          · `X` abortConnection · `P` pauseProducing · `R` resumeProducing
@@ -71,13 +73,31 @@ def decSide : String → Option Side
   | "B" => some .B
   | _ => none
 
+def decOps (s : String) : Option (List AppOp) :=
+  if s = "-" then some [] else (s.splitOn "+").mapM decOp
+
+/-- `<threshold>=<ops>` -/
+def decTrigger (s : String) : Option (Nat × List AppOp) :=
+  match s.splitOn "=" with
+  | [t, ops] => do
+    let t ← t.toNat?
+    let ops ← decOps ops
+    pure (t, ops)
+  | _ => none
+
+def decTriggers (s : String) : Option (List (Nat × List AppOp)) :=
+  if s = "-" then some [] else (s.splitOn "/").mapM decTrigger
+
 def decCfg (s : String) : Option Conn :=
   match s.splitOn ":" with
   | ["p", "-"] => some (Conn.fresh false [])
-  | ["h", "-"] => some (Conn.fresh true [])
-  | ["h", ops] => do
-    let ops ← (ops.splitOn "+").mapM decOp
-    pure (Conn.fresh true ops)
+  | ["h", ops] => (decOps ops).map (Conn.fresh true ·)
+  | ["p", "-", od, "-"] => (decTriggers od).map (Conn.fresh false [] · [])
+  | ["h", ops, od, owl] => do
+    let ops ← decOps ops
+    let od ← decTriggers od
+    let owl ← decOps owl
+    pure (Conn.fresh true ops od owl)
   | _ => none
 
 def decParams (s : String) : Option Params :=
